@@ -71,6 +71,6 @@ def sortedSet (l : List Int) : List Int := dedupSorted (sortBy (fun a b => a ≤
 def sortedSetStr (l : List String) : List String := dedupSorted (sortBy (fun a b => a ≤ b) l)
 
 /-- text before the first `'|'` (`name.split('|')[0]`) -/
-def ensOf (n : String) : String := (n.splitOn "|").headD ""
+def ensOf (n : String) : String := String.ofList (n.toList.takeWhile (· != '|'))
 
 end Py
